@@ -215,6 +215,16 @@ func (Engine) Run(c *choice.Src, o engine.Opt) (out engine.Out) {
 	}
 	sub := c.Sub("seedbytes")
 	seed := sub.Bytes(32)
+	switch c.Weighted([]int{38, 1, 1}, "seedkind") {
+	case 1:
+		seed = make([]byte, 32) // the all-zero seed is a legal seed like any other
+		out.Faults["seed.all_zero"]++
+	case 2:
+		for i := range seed {
+			seed[i] = 0xFF
+		}
+		out.Faults["seed.all_ones"]++
+	}
 	clen := c.Weighted([]int{2, 1, 1, 1, 1, 1, 1, 1, 1, 1, 1, 1, 3}, "custlen")
 	cust := sub.Bytes(12)[:clen]
 	out.Params["mode"] = []string{"history", "offset-sweep", "constructors"}[mode]
@@ -556,6 +566,10 @@ func (Engine) Run(c *choice.Src, o engine.Opt) (out engine.Out) {
 					sz = c.Range(0, 300, "readlen")
 				} else if c.Bool(1, 40, "readbig") {
 					sz = 4096
+				} else if c.Bool(1, 120, "readhuge") {
+					// bulk reads (tens of thousands of blocks), block-aligned or not
+					sz = 65536 + 4096*c.Choose(3, "readhuge.k") + c.Choose(65, "readhuge.r")
+					out.Faults["read.huge"]++
 				}
 				oo = op{kind: "read", a: sz}
 			} else {
